@@ -3,15 +3,18 @@
 // the network (drop, duplicate, hold, reorder) and runs the real server handler
 // (core/server via the verif hooks) with real kernel timestamps shifted by a
 // controllable clock offset theta. Schedules come from TLC (NtpExchangeGen).
+// What the client did with a datagram is learned from the measurement call, the
+// wire, the kernel's view of the client's socket and the client's exported seams
+// (observe.go), never from its log.
 package c03
 
 import (
 	"context"
-	"os"
 	"fmt"
 	"log/slog"
 	"net"
 	"net/netip"
+	"os"
 	"runtime"
 	"strconv"
 	"strings"
@@ -52,10 +55,10 @@ func (c *simClock) Now() time.Time {
 	}
 	return t
 }
-func (c *simClock) Drift(time.Duration) time.Duration             { return 0 }
-func (c *simClock) Step(time.Duration)                            {}
-func (c *simClock) Adjust(time.Duration, time.Duration, float64)  {}
-func (c *simClock) Sleep(d time.Duration)                         { time.Sleep(d) }
+func (c *simClock) Drift(time.Duration) time.Duration            { return 0 }
+func (c *simClock) Step(time.Duration)                           {}
+func (c *simClock) Adjust(time.Duration, time.Duration, float64) {}
+func (c *simClock) Sleep(d time.Duration)                        { time.Sleep(d) }
 
 var _ btimebase.SystemClock = (*simClock)(nil)
 
@@ -67,6 +70,8 @@ var Clock = func() *simClock {
 }()
 
 // ------------------------------------------------------------------ logging
+// (the client's log is kept for an OPTIONAL cross-check only - see observe.go; no
+// observation depends on the name or the attributes of a log record)
 type LogRec struct {
 	Msg   string
 	Attrs map[string]slog.Value
@@ -179,36 +184,41 @@ type Arrival struct {
 }
 
 type Handling struct {
-	H        int
-	Ex       int
-	Theta    time.Duration
-	Rxt      time.Time // server receive time (server clock)
-	Txt0     time.Time // software transmit time returned by handleRequest
-	Ktx      time.Time // kernel transmit time (server clock); zero if not sent
-	Rxt64    ntp.Time64
-	Txt064   ntp.Time64
-	Ktx64    ntp.Time64
-	Resp     []byte // framed for the client
-	NTP      []byte // bare NTP response
-	Meta     *Meta
-	Dst      netip.AddrPort
-	RespPkt  ntp.Packet
-	Sent     bool
+	H       int
+	Ex      int
+	Theta   time.Duration
+	Rxt     time.Time // server receive time (server clock)
+	Txt0    time.Time // software transmit time returned by handleRequest
+	Ktx     time.Time // kernel transmit time (server clock); zero if not sent
+	Rxt64   ntp.Time64
+	Txt064  ntp.Time64
+	Ktx64   ntp.Time64
+	Resp    []byte // framed for the client
+	NTP     []byte // bare NTP response
+	Meta    *Meta
+	Dst     netip.AddrPort
+	RespPkt ntp.Packet
+	Sent    bool
 }
 
 type Net struct {
 	N, D, S, F, K *tsConn // N: the address the client queries (requests arrive here); D: delivers datagrams to the client (same IP)
-	Arrivals   chan Arrival
-	Logs       chan LogRec
-	cur        chan MeasureResult // result channel of the call in progress (nil: none); harness goroutine only
-	Last       MeasureResult      // result of the last finished call
-	T          Transport
-	ClientID   string
-	hcount     int
-	Handlings  map[int]*Handling
-	stop       chan struct{}
-	wg         sync.WaitGroup
-	Timeout    time.Duration
+	Arrivals      chan Arrival
+	Logs          chan LogRec
+	cur           chan MeasureResult // result channel of the call in progress (nil: none); harness goroutine only
+	Last          MeasureResult      // result of the last finished call
+	root          int64              // goroutine of the call in progress
+	started       time.Time          // taken just before the call in progress got its context: its deadline is not before started + Timeout
+	rl            atomic.Int64       // goroutine of readLoop
+	stash         *Arrival           // a request taken off the wire while a reaction was being watched
+	Filter        *RecFilter         // the client's pass-through filter (nil: the client has none)
+	T             Transport
+	ClientID      string
+	hcount        int
+	Handlings     map[int]*Handling
+	stop          chan struct{}
+	wg            sync.WaitGroup
+	Timeout       time.Duration
 }
 
 type MeasureResult struct {
@@ -219,7 +229,12 @@ type MeasureResult struct {
 
 func NewNet() (*Net, error) { return NewNetFor("ip") }
 
-func NewNetFor(kind string) (*Net, error) {
+func NewNetFor(kind string) (*Net, error) { return NewNetWith(kind, true) }
+
+// NewNetWith: filter = true gives the client a recording pass-through filter
+// (measurements.Filter), so that every accepted exchange hands its four
+// timestamps to the harness; false leaves Filter nil as in a default configuration.
+func NewNetWith(kind string, filter bool) (*Net, error) {
 	n := &Net{Arrivals: make(chan Arrival, 64), Logs: make(chan LogRec, 256),
 		Handlings: map[int]*Handling{}, stop: make(chan struct{}), Timeout: 150 * time.Millisecond}
 	var err error
@@ -240,6 +255,9 @@ func NewNetFor(kind string) (*Net, error) {
 	}
 	Clock.serverGID.Store(gid())
 	n.ClientID = "client-" + n.N.addr().String()
+	if filter {
+		n.Filter = &RecFilter{}
+	}
 	n.T = newTransport(kind, n)
 	n.wg.Add(1)
 	go n.readLoop()
@@ -248,6 +266,7 @@ func NewNetFor(kind string) (*Net, error) {
 
 func (n *Net) readLoop() {
 	defer n.wg.Done()
+	n.rl.Store(gid())
 	for {
 		select {
 		case <-n.stop:
@@ -276,7 +295,11 @@ func (n *Net) Close() {
 func (n *Net) StartMeasure() {
 	ch := make(chan MeasureResult, 1)
 	n.cur = ch
+	started := make(chan int64, 1)
+	defer func() { n.root = <-started }()
+	n.started = time.Now()
 	go func() {
+		started <- gid()
 		ctx, cancel := context.WithTimeout(context.Background(), n.Timeout)
 		defer cancel()
 		var res MeasureResult
@@ -326,7 +349,7 @@ func (n *Net) Wait(d time.Duration) bool {
 }
 
 func (n *Net) SetTheta(d time.Duration) { Clock.theta.Store(int64(d)) }
-func (n *Net) Theta() time.Duration    { return time.Duration(Clock.theta.Load()) }
+func (n *Net) Theta() time.Duration     { return time.Duration(Clock.theta.Load()) }
 
 // ServerRecv forwards the request bytes to the server socket, takes the kernel
 // receive timestamp there and runs the real handleRequest on them.
